@@ -11,6 +11,7 @@ Hypothesis.
 
 import copy
 import json
+import sys
 import pickle
 import random
 from typing import Any, Dict, List, Optional, Tuple
@@ -532,6 +533,51 @@ class TreeWorld:
                     raise Failure("C16", "structurally_equal_true_for_different_structure", f"{ts[i][0]} vs {ts[j][0]}")
 
     # ------------------------------------------------------------ replay
+    def op_restart(self, hashseed: int, touch: int):
+        """Process restart: only what was made durable survives.  Every pool member is
+        pickled and JSON-encoded here (after touching its lazily cached fields according
+        to `touch`), and decoded and judged in a fresh interpreter with another hash
+        seed (engines/treechild.py)."""
+        import base64
+        import os
+        import pickle
+        import platform
+        import shutil
+        import subprocess
+
+        def model_json(m: M):
+            return [m.label, m.id, None if m.children is None else [model_json(c) for c in m.children]]
+
+        items = []
+        for k, (t, m) in enumerate(self.pool):
+            if (touch >> (k % 8)) & 1:
+                hash(t)
+                t.structural_hash()
+                t.is_open()
+            if len(m_paths(m)) > 400:
+                continue
+            items.append({"pickle": base64.b64encode(pickle.dumps(t)).decode(), "json": t.to_json(), "model": model_json(m)})
+        if not items:
+            return
+        verif = os.path.dirname(os.path.dirname(os.path.abspath(__file__)))
+        env = dict(os.environ, PYTHONHASHSEED=str(hashseed), PYTHONWARNINGS="ignore")
+        alt = env.get("VERIF_REPO_SRC")
+        env["PYTHONPATH"] = verif + (os.pathsep + alt if alt else "")
+        setarch = shutil.which("setarch")
+        cmd = ([setarch, platform.machine(), "-R"] if setarch else []) + [sys.executable, os.path.join(verif, "engines", "treechild.py")]
+        try:
+            p = subprocess.run(cmd, input=json.dumps({"trees": items}).encode(), capture_output=True, timeout=120, env=env, cwd="/tmp")
+            out = json.loads(p.stdout.decode())
+        except Exception as exc:
+            self.bump("restart_child_lost")
+            self.restart_lost = f"{type(exc).__name__}: {exc}"[:200]
+            return
+        self.bump("restarts")
+        self.counters["restart_trees_decoded"] = self.counters.get("restart_trees_decoded", 0) + out.get("checked", 0)
+        if out.get("problems"):
+            clause, detail = out["problems"][0]
+            raise Failure(getattr(self, "focus_prop", "C17"), clause, f"fresh interpreter, PYTHONHASHSEED={hashseed}: {detail}")
+
     def apply(self, op: List[Any]):
         self.ops.append(op)
         name, args = op[0], op[1:]
@@ -675,6 +721,7 @@ def execute(plan: Dict[str, Any]) -> Dict[str, Any]:
     if "ops" in plan:
         # scripted replay of one history
         w = TreeWorld()
+        w.focus_prop = "C16" if plan.get("focus") == "C16" else "C17"
         try:
             for op in plan["ops"]:
                 w.apply(op)
@@ -727,6 +774,23 @@ def execute(plan: Dict[str, Any]) -> Dict[str, Any]:
             raise
         w = getattr(Machine, "last_world", None)
         record["violations"].append(_harness_or_crash(exc, w.ops if w else []))
+    if not record["violations"] and getattr(Machine, "last_world", None) is not None and plan.get("restart", True):
+        # one process restart per run seed, at the end of the last history: the pool is
+        # made durable and judged in a fresh interpreter with another hash seed
+        w = Machine.last_world
+        w.focus_prop = "C16" if plan.get("focus") == "C16" else "C17"
+        rs = plan["run_seed"]
+        try:
+            w.apply(["restart", 100 + rs % 7, (rs * 2654435761) % 256])
+        except Failure as f:
+            record["violations"].append(_violation(f, w.ops, len(w.ops) - 1))
+        except Exception as exc:
+            record["violations"].append(_harness_or_crash(exc, w.ops))
+        for k, v in w.counters.items():
+            if k.startswith("restart"):
+                counters[k] = counters.get(k, 0) + v
+        if getattr(w, "restart_lost", None):
+            record["inconclusive"].append("restart_child:" + w.restart_lost)
     record["histories"] = len(histories)
     record["ops_total"] = sum(histories)
     record["counters"] = counters
